@@ -3,9 +3,11 @@ CONSTANTS
   AtomNames = {"nil", "boolean", "integer", "string", "table", "true", "1", "-1", "s", "dq", "bs", "A", "Al", "E"}
   SibNames = {"integer", "nil"}
   KeyNames = {"string"}
-  RecShapes1 = {"x", "x?"}
+  RecShapes1 = {"x", "x?", "['a b']", "['1']"}
   RecShapes2 = {"x,y?"}
   Depth2Kinds = {"union", "opt", "arr", "map", "rec"}
   Depth3Kinds = {"opt", "arr"}
   Depth3Cons = {"arr", "opt", "union"}
+  LitNames = {"s", "dq", "bs", "empty", "digit", "sq", "bsn", "bsdq", "nl", "cr", "tab", "ctl", "ctld", "ctlF", "ctldd", "nul", "nuld", "bel", "esc", "escd", "del", "nel", "u8", "u8d", "cjk", "astral", "0", "1", "-1", "-2", "i32", "-i32", "f53", "max", "-max", "true", "false"}
+  LitDepth2Kinds = {}
 INVARIANTS FitsOk DepthOk Emit
